@@ -1,5 +1,8 @@
 import CLModel.Proto
 import CLModel.History.State
+import CLModel.History.Machine
+import CLModel.Ops.C11
+import CLModel.Ops.C14
 namespace Ops.C18
 open Proto P Hist
 
@@ -85,6 +88,229 @@ def opJunkKey (toks : List String) : String :=
     | _, _, _ => "bad-args"
   | _ => "bad-args"
 
+
+/-! ### round 4: the whole state machine `HistM` (`c18.mrun`) -/
+
+open HistM in
+def showLMsg : LMsg (List Nat) → String
+  | .junk v p1 p2 =>
+    s!"error {p1.1} {p1.2} " ++ showText (cps "Unparsed content \"" ++ v
+      ++ cps s!"\" from line {p1.1} column {p1.2} to line {p2.1} column {p2.2}")
+  | .dup k p => s!"error {p.1} {p.2} " ++ showText (cps "Duplicate string with ID: " ++ k)
+  | .changed k p => s!"warning {p.1} {p.2} " ++ showText (cps "Changes to string require a new ID: " ++ k)
+  | .moch k p => s!"warning {p.1} {p.2} " ++ showText ([65533] ++ cps " in: " ++ k)
+
+def showLint : Except String (List (HistM.LMsg (List Nat))) → String
+  | .error e => "exc " ++ e
+  | .ok ms => " ; ".intercalate ("ok" :: ms.map showLMsg)
+
+/-- the text the merge file holds afterwards (`none`: no file) -/
+def mergedText (ref l10n : Array Nat) : Merge.Outcome → String
+  | .nothing => "nofile"
+  | .copyRef => showText ref.toList
+  | .copyL10n => showText l10n.toList
+  | .copyL10nPlus tr => showText (l10n.toList ++ tr)
+  | .written t => showText t
+  | .typeError => "exc TypeError"
+
+def showChanErr : Merge.Err → String
+  | .mergeNotSupported => "MergeNotSupportedError" | .emptySequence => "TypeError" | .hang => "Hang"
+  | .external => "external" | .internal => "internal"
+
+def showOptT : Option (List Nat) → String
+  | some t => showText t
+  | none => "-"
+
+/-- a set of names as `sorted(...)` prints it -/
+def showNames (l : List (List Nat)) : String := ",".intercalate ((Dtd.sOfList l).map showText)
+
+/-- canonical result of one operation; `ctxText` = contents of the Context a `rewalk` walked -/
+def showOutM (op : HistM.Op) (ctxText : Option (Array Nat)) : HistM.Out → String
+  | .base o =>
+    match op, o with
+    | .base bop, _ => showOut bop o
+    | .rewalk f, .parsed st ents =>
+      (match ctxText with
+       | some t => showParsed f t st ents
+       | none => showParsed f #[] st ents)
+    | _, _ => "?"
+  | .lint r => showLint r
+  | .merged r o =>
+    showReport r ++ " ;; " ++
+      (match op, o with
+       | _, none => "-"
+       | _, some (.error e) => "exc " ++ e
+       | .merge _ ref l10n, some (.ok oc) => mergedText ref l10n oc
+       | _, _ => "?")
+  | .bytes r => (match r with | some t => "ok " ++ showText t | none => "none")
+  | .chan r => (match r with | .ok t => "ok " ++ showText t | .error e => "exc " ++ showChanErr e)
+  | .parser c => (match c with | some (cls, sh) => showText cls ++ (if sh then " shared" else " new") | none => "none")
+  | .bool r => Ops.C11.showExc Ops.C11.showB r
+  | .unit r => Ops.C11.showExc (fun _ => "ok") r
+  | .mres r => Ops.C11.showMatch r
+  | .sub r => Ops.C11.showExc Ops.C11.showOptText r
+  | .action r => Ops.C11.showExc Ops.C14.showAction r
+  | .names l => showNames l
+  | .text t => showOptT t
+  | .noObject => "no-object"
+
+def flag (b : Bool) : String := if b then "1" else "0"
+
+def showFC (fc : HistM.FCObj) : String :=
+  showText fc.locale ++ ":" ++ String.join (fc.l10nPaths.map (fun o => flag o.cached.isSome)) ++ ":" ++
+    String.join (fc.rules.map (fun r => flag r.path.cached.isSome))
+
+/-- digest of the state components, as `harness/impl/history.py: state_digest` prints the real ones -/
+def showState (s : HistM.S) : String :=
+  s!"j={s.g.junkid} f={flag s.incFlag} r=" ++ ";".intercalate (s.reCache.map (fun p => showText p.1)) ++
+  " m=" ++ ",".intercalate (s.matchers.map (fun p => s!"{p.1}:" ++ flag p.2.cached.isSome)) ++
+  " c=" ++ ",".intercalate (s.configs.map (fun p => s!"{p.1}:" ++ flag p.2.allLoc.isSome ++ ":" ++
+      (match p.2.cache with | some fc => showFC fc | none => "-"))) ++
+  " k=" ++ ",".intercalate (s.checkers.map (fun p => s!"{p.1}:" ++ flag p.2.known.isSome)) ++
+  " t=" ++ showText s.textcontent
+
+def parseLocsM : List String → Option (Option (List (List Nat)) × List String)
+  | "N" :: rest => some (none, rest)
+  | toks => (Ops.C14.parseTexts toks).map (fun (ls, r) => (some ls, r))
+
+def parsePathEnt (toks : List String) : Option (FiltM.PathEntryM × List String) := do
+  let (pat, r1) ← Ops.C14.parseTextTok toks
+  let (ls, r2) ← parseLocsM r1
+  pure (⟨pat, ls⟩, r2)
+
+/-- `<pattern> (- | L <key> | X <regex>) <action>`: a compiled rule -/
+def parseRuleM (toks : List String) : Option (FiltM.RuleM × List String) := do
+  let (pat, r1) ← Ops.C14.parseTextTok toks
+  match r1 with
+  | "-" :: a :: r2 => do
+    pure (⟨pat, none, ← Ops.C14.parseAction a⟩, r2)
+  | "L" :: k :: a :: r2 => do
+    pure (⟨pat, some (Filt.KeyPred.literal (← parseText k)), ← Ops.C14.parseAction a⟩, r2)
+  | "X" :: r2 => do
+    let (re, r3) ← parseRe r2
+    match r3 with
+    | a :: r4 => do pure (⟨pat, some (Filt.KeyPred.regex re), ← Ops.C14.parseAction a⟩, r4)
+    | [] => none
+  | _ => none
+
+def parseEnv (toks : List String) : Option (List (List Nat × List Nat) × List String) :=
+  match toks with
+  | n :: rest => do
+    let n ← parseNat n
+    Ops.C11.parsePairs n rest
+  | [] => none
+
+def parseOptT : List String → Option (Option (List Nat) × List String)
+  | "-" :: rest => some (none, rest)
+  | t :: rest => (parseText t).map (fun x => (some x, rest))
+  | [] => none
+
+def parseNd (toks : List String) : Option (Ser.NewData × List String) :=
+  Ops.C14.parseCounted (fun ts => do
+    let (k, r1) ← Ops.C14.parseTextTok ts
+    let (v, r2) ← parseOptT r1
+    pure ((k, v), r2)) toks
+
+def parseArrs (toks : List String) : Option (List (Array Nat) × List String) :=
+  (Ops.C14.parseTexts toks).map (fun (ts, r) => (ts.map List.toArray, r))
+
+/-- one operation of `HistM` and the remaining tokens -/
+def parseOpM : List String → Option (HistM.Op × List String)
+  | "parse" :: f :: t :: rest => do
+    pure (.base (.parse (← parseFmt f) (← parseText t).toArray), rest)
+  | "compare" :: f :: a :: b :: rest => do
+    pure (.base (.compare (← parseFmt f) (← parseText a).toArray (← parseText b).toArray), rest)
+  | "rewalk" :: f :: rest => do pure (.rewalk (← parseFmt f), rest)
+  | "read" :: f :: t :: rest => do pure (.read (← parseFmt f) (← parseText t).toArray, rest)
+  | "lint" :: f :: r :: c :: rest => do
+    let ref ← if r == "-" then pure none else (parseText r).map (fun t => some t.toArray)
+    pure (.lint (← parseFmt f) ref (← parseText c).toArray, rest)
+  | "merge" :: f :: a :: b :: rest => do
+    pure (.merge (← parseFmt f) (← parseText a).toArray (← parseText b).toArray, rest)
+  | "serialize" :: f :: a :: b :: rest => do
+    let (nd, r) ← parseNd rest
+    pure (.serialize (← parseFmt f) (← parseText a).toArray (← parseText b).toArray nd, r)
+  | "chan" :: f :: rest => do
+    let (ts, r) ← parseArrs rest
+    pure (.mergeChannels (← parseFmt f) ts, r)
+  | "getparser" :: p :: rest => do pure (.getParser (← parseText p), rest)
+  | "moz" :: p :: pat :: rest => do pure (.mozMatch (← parseText p) (← parseText pat), rest)
+  | "mnew" :: id :: pat :: rest => do
+    let (env, r1) ← parseEnv rest
+    let (root, r2) ← parseOptT r1
+    pure (.mNew (← parseNat id) (← parseText pat) env root, r2)
+  | "mwith" :: id :: nid :: rest => do
+    let (env, r1) ← parseEnv rest
+    pure (.mWithEnv (← parseNat id) (← parseNat nid) env, r1)
+  | "mmatch" :: id :: p :: rest => do pure (.mMatch (← parseNat id) (← parseText p), rest)
+  | "msub" :: id :: o :: p :: rest => do pure (.mSub (← parseNat id) (← parseNat o) (← parseText p), rest)
+  | "cnew" :: id :: rest => do
+    let (locs, r1) ← parseLocsM rest
+    let (env, r2) ← parseEnv r1
+    let (root, r3) ← parseOptT r2
+    let (paths, r4) ← Ops.C14.parseCounted parsePathEnt r3
+    let (rules, r5) ← Ops.C14.parseCounted parseRuleM r4
+    pure (.cNew (← parseNat id) locs env root paths rules, r5)
+  | "csetloc" :: id :: rest => do
+    let (locs, r1) ← parseLocsM rest
+    pure (.cSetLocales (← parseNat id) locs, r1)
+  | "caddrules" :: id :: rest => do
+    let (rules, r1) ← Ops.C14.parseCounted parseRuleM rest
+    pure (.cAddRules (← parseNat id) rules, r1)
+  | "caddpaths" :: id :: rest => do
+    let (paths, r1) ← Ops.C14.parseCounted parsePathEnt rest
+    pure (.cAddPaths (← parseNat id) paths, r1)
+  | "cfilter" :: id :: fp :: loc :: k :: rest => do
+    let key ← if k == "-" then pure none else (parseText k).map some
+    pure (.cFilter (← parseNat id) ⟨← parseText fp, ← parseText loc⟩ key, rest)
+  | "calllocales" :: id :: rest => do pure (.cAllLocales (← parseNat id), rest)
+  | "dnew" :: id :: a :: rest => do
+    let (ref, r1) ← parseLocsM rest
+    pure (.dNew (← parseNat id) (a == "1") ref, r1)
+  | "dknown" :: id :: v :: rest => do pure (.dKnown (← parseNat id) (← parseText v), rest)
+  | "dtext" :: id :: v :: rest => do
+    let (cs, r1) ← Ops.C14.parseTexts rest
+    pure (.dCheckText (← parseNat id) (← parseText v) cs, r1)
+  | _ => none
+
+def parseOpsM : Nat → List String → Option (List HistM.Op)
+  | _, [] => some []
+  | 0, _ => none
+  | fuel + 1, toks => do
+    let (op, rest) ← parseOpM toks
+    let ops ← parseOpsM fuel rest
+    pure (op :: ops)
+
+/-- `U` | `P n (regex class)*` -/
+def parseEp : List String → Option (HistM.EpEnv × List String)
+  | "U" :: rest => some (.unavailable, rest)
+  | "P" :: rest =>
+    (Ops.C14.parseCounted (fun ts => do
+      let (re, r1) ← parseRe ts
+      let (cls, r2) ← Ops.C14.parseTextTok r1
+      pure ((re, cls), r2)) rest).map (fun (ps, r) => (.plugins ps, r))
+  | _ => none
+
+def runShow : HistM.S → List HistM.Op → List String
+  | _, [] => []
+  | s, op :: ops =>
+    let ctxText : Option (Array Nat) :=
+      match op with
+      | .rewalk f => (s.g.pctx f).bind (fun a => (s.g.heap[a]?).map (·.contents))
+      | _ => none
+    let r := HistM.step s op
+    (showOutM op ctxText r.2 ++ " @@ " ++ showState r.1) :: runShow r.1 ops
+
+/-- c18.mrun <EP> <op>* : a whole history through `HistM.step` from the state of a fresh interpreter; per
+    operation `result @@ state digest`, joined by " || " -/
+def opMRun (toks : List String) : String :=
+  match parseEp toks with
+  | none => "bad-args"
+  | some (ep, rest) =>
+    match parseOpsM (rest.length + 1) rest with
+    | none => "bad-args"
+    | some ops => " || ".intercalate (runShow { HistM.S.init with ep := ep } ops)
+
 def ops : List (String × (List String → String)) :=
-  [("c18.run", opRun), ("c18.junkkey", opJunkKey)]
+  [("c18.run", opRun), ("c18.junkkey", opJunkKey), ("c18.mrun", opMRun)]
 end Ops.C18
